@@ -31,6 +31,14 @@ pub enum Shape {
     /// as available) at the moment the lazily fetched r=1 reveals them through its requirements; s=2 is
     /// then abandoned (r=1 is the only candidate of r), so the candidates become selectable again
     FalseWhenRevealed,
+    /// overlapping revelations: the first k candidates, then all of them (the first k a second time)
+    Overlap(usize),
+    /// growing prefixes [0..1), [0..2), ... (step 1) or [0..1), [0..2), [0..4), ... (doubling), then all
+    Growing(bool),
+    /// everything revealed twice through two different version sets
+    Twice,
+    /// the wanted singletons are listed before the requirement that reveals the package
+    WantFirst,
 }
 
 #[derive(Clone, Debug, serde::Serialize, serde::Deserialize)]
@@ -76,6 +84,37 @@ pub fn build(spec: &Spec) -> Case {
                 prob.reqs.push(r);
             }
             prob.reqs.extend(want_reqs);
+        }
+        Shape::Overlap(k) => {
+            let k = (*k).clamp(1, spec.n);
+            let r = reveal(&mut u, &all[..k]);
+            prob.reqs.push(r);
+            let r = reveal(&mut u, &all);
+            prob.reqs.push(r);
+            prob.reqs.extend(want_reqs);
+        }
+        Shape::Growing(doubling) => {
+            let mut k = 1usize;
+            while k < spec.n {
+                let r = reveal(&mut u, &all[..k]);
+                prob.reqs.push(r);
+                k = if *doubling { k * 2 } else { k + 1 };
+            }
+            let r = reveal(&mut u, &all);
+            prob.reqs.push(r);
+            prob.reqs.extend(want_reqs);
+        }
+        Shape::Twice => {
+            let r = reveal(&mut u, &all);
+            prob.reqs.push(r);
+            let r = reveal(&mut u, &all);
+            prob.reqs.push(r);
+            prob.reqs.extend(want_reqs);
+        }
+        Shape::WantFirst => {
+            prob.reqs.extend(want_reqs);
+            let r = reveal(&mut u, &all);
+            prob.reqs.push(r);
         }
         Shape::Blocks(sz) => {
             for b in all.chunks(*sz) {
@@ -195,6 +234,17 @@ fn shapes_for(n: usize, quick: bool) -> Vec<Shape> {
         }
     }
     v.push(Shape::FalseWhenRevealed);
+    v.push(Shape::Twice);
+    v.push(Shape::WantFirst);
+    v.push(Shape::Growing(true));
+    if n <= 9 || !quick {
+        v.push(Shape::Growing(false));
+    }
+    for k in [1usize, 2, 3, 4, 5, 8, 9, 16, 17] {
+        if k < n {
+            v.push(Shape::Overlap(k));
+        }
+    }
     // split points: all of them up to n = 9 (quick) / 40 (thorough); above that the ones around the powers of two
     let mut ks: Vec<usize> = if n <= 9 || (!quick && n <= 40) {
         (0..=n).collect()
